@@ -47,8 +47,14 @@ THEOREMS = [
     "Jinns.Rar.c16StepCounts_of_step",
     "Jinns.Rar.c16ScanCounts_of_scan",
     "Jinns.Rar.holdsC16Resumed_of_holds",
+    "Jinns.Rar.maskOK_trigger",
+    "Jinns.Rar.holdsC16Resumed_model",
+    "Jinns.Rar.resumed_after_run",
+    "Jinns.Rar.resumed_chain",
+    "Jinns.Rar.resumed_steps_bounds",
+    "Jinns.Rar.resumed_active_counts",
 ]
-LEAN_MODULES = ["JinnsProofs.C16"]
+LEAN_MODULES = ["JinnsProofs.C16", "JinnsProofs.C16Resumed"]
 RULE = ("cases = (generator kind, allocation sizes, selected/sample sizes, batch sizes, start, every, number of "
         "iterations, mode trigger|solve); per iteration: whether the hook of rar_step_true fired, rar_iter_nb, "
         "rar_iter_from_last_sampling and the non-zero patterns of p_times / p_omega (in solve mode only after the last "
